@@ -365,8 +365,10 @@ func (mo *c29Mon) collect() *c29Snap {
 		s.pend[k] = hh
 	}
 	pendIdx := map[*HandshakeHostInfo]uint32{}
+	pendOwnerHI := map[*HandshakeHostInfo]*HostInfo{}
 	for _, hh := range hs.vpnIps {
 		pendIdx[hh] = hh.hostinfo.localIndexId
+		pendOwnerHI[hh] = hh.hostinfo
 		s.pendLive[hh] = hh.hostinfo.localIndexId
 	}
 	pendKeyIdx := map[uint32]uint32{}
@@ -452,21 +454,33 @@ func (mo *c29Mon) collect() *c29Snap {
 			bad("C29/zero-relay-index", "Relays holds key 0 (tunnel %s)", mo.nm(h))
 		}
 	}
-	seenPend := map[uint32]*HandshakeHostInfo{}
+	// A pending handshake whose index was released behind its back is the primary witness; that the allocator then hands
+	// the same index to somebody else is its consequence and is not reported a second time for the same index.
+	lost := map[uint32]bool{}
 	for hh, idx := range pendIdx {
 		if idx == 0 {
 			continue // no index handed out yet
 		}
-		if o, dup := seenPend[idx]; dup {
-			bad("C29/two-pending-handshakes-share-index", "pending handshakes %s and %s are both present and both carry index %d", mo.nm(o), mo.nm(hh), idx)
-		}
-		seenPend[idx] = hh
 		if s.pend[idx] != hh {
+			lost[idx] = true
 			cur := "nobody"
 			if o, ok := s.pend[idx]; ok {
 				cur = mo.nm(o)
 			}
 			bad("C29/pending-handshake-lost-its-index", "pending handshake %s is still present (vpnIps) and was given index %d, but pending indexes[%d] belongs to %s: the index was released without removing its owner", mo.nm(hh), idx, idx, cur)
+		}
+	}
+	seenPend := map[uint32]*HandshakeHostInfo{}
+	for hh, idx := range pendIdx {
+		if idx == 0 || lost[idx] {
+			continue
+		}
+		if o, dup := seenPend[idx]; dup {
+			bad("C29/two-pending-handshakes-share-index", "pending handshakes %s and %s are both present and both carry index %d", mo.nm(o), mo.nm(hh), idx)
+		}
+		seenPend[idx] = hh
+		if h, ok := s.main[idx]; ok && h != pendOwnerHI[hh] {
+			bad("C29/index-held-by-pending-and-established", "index %d is carried by pending handshake %s and by established tunnel %s at once", idx, mo.nm(hh), mo.nm(h))
 		}
 	}
 	// relay indexes AddRelay returned to the harness
@@ -1070,7 +1084,7 @@ func c29RunConc(t *testing.T, r *verifkit.Reporter, hi int) {
 	close(poolStop)
 	poolWg.Wait()
 	mo.check("quiescent after workload", K)
-	for i := 0; i < 80; i++ {
+	for i := 0; i < 240; i++ {
 		runStep(true)
 		hsm.RLock()
 		n := len(hsm.vpnIps)
